@@ -520,6 +520,9 @@ class Namespace(Evaluatable[Options]):
         return item
 
     def __getattr__(self, key: str) -> Evaluatable:
+        if "_members" not in self.__dict__:
+            # not initialised yet: copy and pickle probe attributes of an empty instance
+            raise AttributeError(key)
         try:
             return self[key]
         except KeyError:
